@@ -955,6 +955,31 @@ func renderTable(t *table) string {
 			}
 		}
 	}
+	// all result columns, raw ("i:4", "s:x", "true", "nil", "err", "?")
+	var cols []string
+	for _, c := range t.Clauses {
+		for _, k := range c.Keys {
+			kk := k
+			if strings.Contains(k, ";") {
+				parts := strings.Split(k, ";")
+				for i := range parts {
+					parts[i] = strings.TrimPrefix(parts[i], "s:")
+				}
+				kk = "s:" + strings.Join(parts, ";")
+			}
+			var rs []string
+			for _, r := range c.Results {
+				rs = append(rs, leanStr(r))
+			}
+			cols = append(cols, fmt.Sprintf("(%s, [%s])", renderConst(kk), strings.Join(rs, ", ")))
+		}
+	}
+	fmt.Fprintf(&b, "def %s_cols : List (%s × List String) := %s\n\n", t.Name, keyTy, leanList(cols))
+	var drs []string
+	for _, r := range t.Default {
+		drs = append(drs, leanStr(r))
+	}
+	fmt.Fprintf(&b, "def %s_defaultCols : List String := [%s]\n\n", t.Name, strings.Join(drs, ", "))
 	defErr := len(t.Default) > 1 && t.Default[len(t.Default)-1] == "err"
 	fmt.Fprintf(&b, "def %s_defaultIsErr : Bool := %v\n\n", t.Name, defErr)
 	return b.String()
